@@ -201,6 +201,20 @@ def _cascade(shard):
         out["samples"].append({"cascade": "no standalone cascade routine found; covered only through the generators' streams"})
         return out
     g = noise.alpha_noise(10.0, 0.1, 2.0, 1.3, init_filter=False, seed=0)
+    # the stand-alone routine is internal: only drive it directly if the generator itself uses the documented convention
+    # (one row [a0, a1] / [1, -b1] per section, one state per section as an (n, 1) array, 4 positional arguments)
+    try:
+        ok_layout = (np.ndim(g._a_coeffs) == 2 and np.shape(g._a_coeffs)[1] == 2 and np.shape(g._zi_states) == (np.shape(g._a_coeffs)[0], 1))
+        if ok_layout:
+            yy_, zz_ = cascade(np.zeros(3), np.array(g._a_coeffs, copy=True), np.array(g._b_coeffs, copy=True), np.array(g._zi_states, copy=True))
+            ok_layout = np.shape(yy_) == (3,) and np.shape(zz_) == np.shape(g._zi_states)
+    except Exception:  # noqa: BLE001
+        ok_layout = False
+    if not ok_layout:
+        out["evals"] = 1
+        out["extra"]["cascade_routine_not_found"] = 1
+        out["samples"].append({"cascade": "the cascade routine does not follow the documented internal convention; covered only through the generators' streams"})
+        return out
     try:
         real = (np.array(g._a_coeffs, copy=True), np.array(g._b_coeffs, copy=True))
     except AttributeError:  # coefficients stored differently: use a typical pink-noise cascade instead
@@ -298,6 +312,14 @@ def _long(shard):
                 break
     if shard["gen"].startswith("alpha1.3/raw"):
         cascade = getattr(noise, "_numba_lfilter_cascade", None)
+        try:
+            g_ = make0(seed)
+            if cascade is not None and not (np.ndim(g_._a_coeffs) == 2 and np.shape(g_._a_coeffs)[1] == 2 and np.shape(g_._zi_states) == (np.shape(g_._a_coeffs)[0], 1)):
+                cascade = None
+            if cascade is not None:
+                cascade(np.zeros(3), np.array([[1.0, 0.0]]), np.array([[1.0, 0.0]]), np.zeros((1, 1)))
+        except Exception:  # noqa: BLE001
+            cascade = None
         if cascade is not None:
             A = np.array([[1.2, -0.9], [1.1, -0.7], [1.05, -0.2]])
             B = np.array([[1.0, -0.95], [1.0, -0.8], [1.0, -0.3]])
